@@ -63,6 +63,11 @@ def run_case(case, ctx):
                                  allow_twice=rng.random() < 0.3)
     else:
         desc = snlib.gen_sn_desc(rng)
+    # blocks configured for Gumbel sampling: in eval mode (where the hard-selection reference is
+    # taken) they sample without noise, so everything below applies unchanged
+    if (case['seed'] // 5) % 3 == 0:
+        desc['gumbel'] = True
+        ctx.cls('gumbel-configured-blocks')
     blocks = snlib.sn_blocks(desc)
     wrng = random.Random(case['seed'])
     combos, exhaustive = snlib.winner_combinations(desc, wrng, case['limit'])
